@@ -1,7 +1,7 @@
 (* C07 — Countdown and staircase timers fire once, on time, and survive a reboot.
    Property theorems only: each is closed by `exact` of a lemma proved in C07/Proofs.v.
-   `e` selects the variant of supla_esp_countdown_timer_countdown (false: unchanged tree, true: proposed repair
-   docs/fixes/C07_rearm_starvation.diff); the correspondence run uses the variant found in the tree. *)
+   `e` selects the variant of supla_esp_countdown_timer_countdown (false: original code, true: the repair
+   docs/fixes/C07_countdown_evaluate_first.diff: evaluate the running slots, then set up the new one and re-arm); the correspondence run uses the variant found in the tree. *)
 From Coq Require Import List ZArith Bool.
 Import ListNotations.
 From V Require Import Base.Bytes Gen.RelayConsts C07.Model C07.Proofs.
@@ -35,7 +35,7 @@ Theorem C07_at_most_once : forall e c evs,
 Proof. intros e c evs W Wev N. exact (at_most_once_thm e c W evs Wev N). Qed.
 Print Assumptions C07_at_most_once.
 
-(* On time (the code with the repair docs/fixes/C07_rearm_starvation.diff, e = true): every switch-back is evaluated
+(* On time (the code with the repair docs/fixes/C07_countdown_evaluate_first.diff, e = true): every switch-back is evaluated
    less than dur + 50 ms (one minimum period) + S + 16 relay operations after it was armed, where S bounds how late
    the evaluations of the slot table started after the due time of the shared timer (H_slack: jitter of the callback
    plus busy-waits that delayed it).  For a lone timer the 16 relay operations do not occur; see
@@ -93,7 +93,7 @@ Theorem C07_restart_restores : forall e c s a r,
   pin s' (r_gpio r) = xorb (v =? 1) (hasf (r_flags r) FLAG_LO_LEVEL) /\
   (0 < T < 2147483648 -> (exists x, In x (slots s) /\ s_chan x = 255) ->
    v = 1 \/ (getz (time2 s) (r_chan r) = 0 /\ hasf (getz (chfl s) a) CHFLAG_COUNTDOWN = true) ->
-   In (GArm (now s) (r_chan r) T (1 - v)) (outs s')).
+   exists t0, now s <= t0 <= now s + 8 * OP /\ In (GArm t0 (r_chan r) T (1 - v)) (outs s')).
 Proof. exact restore_one_thm. Qed.
 Print Assumptions C07_restart_restores.
 
